@@ -8,7 +8,7 @@ from . import core, native
 def main() -> int:
     t0 = time.time()
     from translate import gen
-    for name in ("gen_digi", "gen_geom", "gen_reid", "gen_raw_consts", "gen_sym_index", "gen_helix", "gen_helixprops", "gen_rootpy", "gen_reidpy", "gen_cachepy", "gen_rawpy", "gen_detparse", "gen_awkpy", "gen_rootcpp", "gen_rawcpp", "gen_finalpy", "gen_geompy"):
+    for name in ("gen_digi", "gen_geom", "gen_reid", "gen_raw_consts", "gen_sym_index", "gen_helix", "gen_helixprops", "gen_rootpy", "gen_reidpy", "gen_cachepy", "gen_rawpy", "gen_detparse", "gen_awkpy", "gen_rootcpp", "gen_rawcpp", "gen_finalpy", "gen_geompy", "gen_entrypy"):
         r = getattr(gen, name)()
         print(f"[setup] {name}: {'ok' if r['ok'] else 'FAILED ' + str(r['error'])}", flush=True)
     ok, log = core.lake_build(["Pybes3Verif"], timeout=3400)
